@@ -121,7 +121,7 @@ func (Engine) Draw(rt *rapid.T, prop, tier string) any {
 	for i := 0; i < nt; i++ {
 		p.Ticks = append(p.Ticks, rapid.IntRange(0, len(p.Blocks)-1).Draw(rt, "tick"))
 	}
-	p.Tape = drawTape(rt, 64)
+	p.Tape = drawTape(rt, 256)
 	return p
 }
 
@@ -141,6 +141,7 @@ type run struct {
 	raw   map[uint32][]byte       // encoded block per height
 	blks  map[uint32]*block.Block
 	fail  *sim.Violation
+	flats map[uint32]*flatState
 }
 
 func (r *run) violate(v *sim.Violation) {
